@@ -255,3 +255,5 @@ REG.contracts.append(_c05.c_solve.contract)
 REG.contracts.append(_c05.c_clamp.contract)
 # stage times reach the models also through a Coupler: the time given by the iterator is forwarded to every coupled model (same contract as C05)
 REG.contracts.append(_c05.c_coupler.contract)
+REG.contracts.append(_c05.c_gm_solve.contract)
+REG.contracts.append(_c05.c_flat.contract)
